@@ -40,49 +40,63 @@ Show(x) ==
 IsOpen(t)  == t.t \in {"(", "cxo"}
 IsClose(t) == t.t \in {")", "]"}
 \* bracket depth after each token (may dip below 0 on malformed strings)
+Delta(t) == IF IsOpen(t) THEN 1 ELSE IF IsClose(t) THEN 0 - 1 ELSE 0
 RECURSIVE DepthAt(_, _)
-DepthAt(s, i) == IF i = 0 THEN 0 ELSE DepthAt(s, i - 1) + (IF IsOpen(s[i]) THEN 1 ELSE IF IsClose(s[i]) THEN 0 - 1 ELSE 0)
-MaxDepth(s) == IF s = <<>> THEN 0 ELSE LET D == {DepthAt(s, i) : i \in 1..Len(s)} IN CHOOSE d \in D : \A e \in D : e <= d
+DepthAt(s, i) == IF i = 0 THEN 0 ELSE DepthAt(s, i - 1) + Delta(s[i])
+RECURSIVE MaxDepthAcc(_, _, _, _)
+MaxDepthAcc(s, i, cur, mx) == IF i > Len(s) THEN mx
+                              ELSE LET c == cur + Delta(s[i]) IN MaxDepthAcc(s, i + 1, c, IF c > mx THEN c ELSE mx)
+MaxDepth(s) == MaxDepthAcc(s, 1, 0, 0)
 \* expression nesting: the whole filter is level 1, every group / not(..) / attr[..] one more
 Nest(s) == 1 + MaxDepth(s)
 
 \* ----------------------------- L1: reference reading ----------------------
-\* relative depth inside s[i..j]
-RECURSIVE RelDepth(_, _, _)
-RelDepth(s, i, p) == IF p < i THEN 0 ELSE RelDepth(s, i, p - 1) + (IF IsOpen(s[p]) THEN 1 ELSE IF IsClose(s[p]) THEN 0 - 1 ELSE 0)
-Balanced(s, i, j) == RelDepth(s, i, j) = 0 /\ \A p \in i..j : RelDepth(s, i, p) >= 0
+\* dep[p] = bracket depth after token p (dep[0] = 0), computed once per string
+\* (built as an explicit tuple: a function expression would be re-evaluated at every application)
+RECURSIVE DepthSeq(_, _, _, _)
+DepthSeq(s, i, cur, acc) == IF i > Len(s) THEN acc ELSE DepthSeq(s, i + 1, cur + Delta(s[i]), Append(acc, cur + Delta(s[i])))
+DepthFn(s) == DepthSeq(s, 1, 0, <<>>)
+DP(dep, p) == IF p = 0 THEN 0 ELSE dep[p]
+Balanced(dep, i, j) == DP(dep, j) = DP(dep, i - 1) /\ \A p \in i..j : dep[p] >= DP(dep, i - 1)
 \* position p holds keyword kw at bracket depth 0 of s[i..j] (and not at the edges)
-TopKw(s, i, j, p, kw) == i < p /\ p < j /\ s[p] = W(kw) /\ RelDepth(s, i, p) = 0
+TopKw(s, dep, i, j, p, kw) == i < p /\ p < j /\ s[p] = W(kw) /\ dep[p] = DP(dep, i - 1)
 \* s[i] opens a bracket that closes exactly at j
-Encloses(s, i, j) == i < j /\ IsOpen(s[i]) /\ IsClose(s[j]) /\ RelDepth(s, i, j) = 0 /\ \A p \in i..(j - 1) : RelDepth(s, i, p) >= 1
+Encloses(s, dep, i, j) == i < j /\ IsOpen(s[i]) /\ IsClose(s[j]) /\ dep[j] = DP(dep, i - 1) /\ \A p \in i..(j - 1) : dep[p] > DP(dep, i - 1)
 LeafAt(s, i, j, atoms) ==
   IF j = i /\ s[i].t = "w" /\ s[i].s \in atoms THEN [k |-> "atom", s |-> s[i].s]
   ELSE IF j = i + 1 /\ s[i].t = "w" /\ s[j] = W("pr") /\ s[i].s \notin atoms THEN [k |-> "leaf", p |-> s[i].s, op |-> "pr", v |-> ""]
   ELSE IF j = i + 2 /\ s[i].t = "w" /\ s[i + 1].t = "w" /\ s[i + 1].s \in CmpOps /\ s[j].t = "w" /\ s[i].s \notin atoms
        THEN [k |-> "leaf", p |-> s[i].s, op |-> s[i + 1].s, v |-> s[j].s]
   ELSE Err
-RECURSIVE Ref(_, _, _, _, _)
+RECURSIVE Ref(_, _, _, _, _, _)
 \* cx: inside attr[..] (no nested attr[..]); atoms: words that are whole leaves
-Ref(s, i, j, cx, atoms) ==
-  IF j < i \/ ~Balanced(s, i, j) THEN Err
-  ELSE LET ors  == {p \in i..j : TopKw(s, i, j, p, "or")}
-           ands == {p \in i..j : TopKw(s, i, j, p, "and")}
-           split(p, kw) == LET a == Ref(s, i, p - 1, cx, atoms) b == Ref(s, p + 1, j, cx, atoms)
+Ref(s, dep, i, j, cx, atoms) ==
+  IF j < i \/ ~Balanced(dep, i, j) THEN Err
+  ELSE LET ors  == {p \in i..j : TopKw(s, dep, i, j, p, "or")}
+           ands == {p \in i..j : TopKw(s, dep, i, j, p, "and")}
+           split(p, kw) == LET a == Ref(s, dep, i, p - 1, cx, atoms) b == Ref(s, dep, p + 1, j, cx, atoms)
                            IN IF a = Err \/ b = Err THEN Err ELSE [k |-> kw, l |-> a, r |-> b]
            last(S) == CHOOSE p \in S : \A q \in S : q <= p
        IN IF ors # {} THEN split(last(ors), "or")
           ELSE IF ands # {} THEN split(last(ands), "and")
-          ELSE IF j >= i + 3 /\ s[i] = W("not") /\ s[i + 1] = LP /\ s[j] = RP /\ Encloses(s, i + 1, j)
-               THEN LET e == Ref(s, i + 2, j - 1, cx, atoms) IN IF e = Err THEN Err ELSE [k |-> "not", e |-> e]
-          ELSE IF s[i] = LP /\ s[j] = RP /\ Encloses(s, i, j) THEN Ref(s, i + 1, j - 1, cx, atoms)
-          ELSE IF ~cx /\ s[i].t = "cxo" /\ s[j] = RB /\ Encloses(s, i, j)
-               THEN LET e == Ref(s, i + 1, j - 1, TRUE, atoms) IN IF e = Err THEN Err ELSE [k |-> "cx", a |-> s[i].s, e |-> e]
+          ELSE IF j >= i + 3 /\ s[i] = W("not") /\ s[i + 1] = LP /\ s[j] = RP /\ Encloses(s, dep, i + 1, j)
+               THEN LET e == Ref(s, dep, i + 2, j - 1, cx, atoms) IN IF e = Err THEN Err ELSE [k |-> "not", e |-> e]
+          ELSE IF s[i] = LP /\ s[j] = RP /\ Encloses(s, dep, i, j) THEN Ref(s, dep, i + 1, j - 1, cx, atoms)
+          ELSE IF ~cx /\ s[i].t = "cxo" /\ s[j] = RB /\ Encloses(s, dep, i, j)
+               THEN LET e == Ref(s, dep, i + 1, j - 1, TRUE, atoms) IN IF e = Err THEN Err ELSE [k |-> "cx", a |-> s[i].s, e |-> e]
           ELSE LeafAt(s, i, j, atoms)
-RefTree(s, atoms) == IF s = <<>> THEN Err ELSE Ref(s, 1, Len(s), FALSE, atoms)
+RefTree(s, atoms) == IF s = <<>> THEN Err ELSE LET dep == DepthFn(s) IN Ref(s, dep, 1, Len(s), FALSE, atoms)
 
 \* the property on one observation: text tokens s (or the printed AST), the parser's answer
 RoundTripOk(ast, lim, parsed) == Nest(Show(ast)) <= lim => parsed = ast
-PrecedenceOk(s, lim, atoms, parsed) == /\ (parsed # Err => parsed = RefTree(s, atoms))
+\* the tree without the literal texts (their lexical fidelity is not what precedence is about)
+RECURSIVE Skel(_)
+Skel(x) == CASE x.k = "leaf" -> [k |-> "leaf", p |-> x.p, op |-> x.op]
+             [] x.k \in {"and", "or"} -> [k |-> x.k, l |-> Skel(x.l), r |-> Skel(x.r)]
+             [] x.k = "not" -> [k |-> "not", e |-> Skel(x.e)]
+             [] x.k = "cx" -> [k |-> "cx", a |-> x.a, e |-> Skel(x.e)]
+             [] OTHER -> x
+PrecedenceOk(s, lim, atoms, parsed) == /\ (parsed # Err => Skel(parsed) = Skel(RefTree(s, atoms)))
                                        /\ (Nest(s) > lim => parsed = Err)
 
 \* ----------------------------- L2: the peg grammar ------------------------
